@@ -246,6 +246,55 @@ def burst(sx):
         gc.ConfigChange = saved_cc
 
 
+def second_locator(sx):
+    """a second discovery in the same process (a fresh locator, as the spa manager builds one per run): it lists the
+    answering spas again and returns on time"""
+    import asyncio
+    from sx.vloop import VLoop, patched_time
+    from geckolib.async_locator import GeckoAsyncLocator
+    from geckolib.async_tasks import AsyncTasks
+    from geckolib.config import GeckoConfig
+    import geckolib.config as gc
+    saved = (GeckoConfig.DISCOVERY_INITIAL_TIMEOUT_IN_SECONDS, GeckoConfig.DISCOVERY_TIMEOUT_IN_SECONDS)
+    saved_cc = gc.ConfigChange
+    gc.ConfigChange = None
+    GeckoConfig.DISCOVERY_INITIAL_TIMEOUT_IN_SECONDS, GeckoConfig.DISCOVERY_TIMEOUT_IN_SECONDS = INITIAL, TIMEOUT
+    loop = VLoop()
+    filtered = bool(sx.choice("identifier_filter_on_the_second_run", 2))
+    try:
+        with patched_time(loop):
+            tm = AsyncTasks()
+
+            async def ev(e, **k):
+                pass
+
+            def on_endpoint(tr, proto, kwargs):
+                def on_send(tr_, data, addr):
+                    for ident, ad in SPAS:
+                        proto.datagram_received(b"<HELLO>" + ident + b"|spa</HELLO>", ad)
+                tr.on_send = on_send
+            loop.on_endpoint = on_endpoint
+            out = []
+
+            async def session():
+                async with tm:
+                    for run in range(2):
+                        kw = {"spa_identifier": SPAS[1][0].decode("latin1")} if (run == 1 and filtered) else {}
+                        loc = GeckoAsyncLocator(tm, ev, **kw)
+                        t0 = loop.time()
+                        await loc.discover()
+                        out.append(([d.identifier for d in loc.spas], loop.time() - t0))
+            loop.run_until_complete(session(), max_time=100.0)
+            for run, (ids, took) in enumerate(out):
+                want = [SPAS[1][0]] if (run == 1 and filtered) else [SPAS[0][0], SPAS[1][0]]
+                sx.check(sorted(ids) == sorted(want), "dsc.every-run-lists-the-answering-spas", lambda: f"run {run}: {ids}")
+                sx.check(took <= INITIAL + 3 * POLL + 1e-9, "dsc.every-run-returns-on-time", lambda: f"run {run}: {took}")
+        loop.cancel_all()
+    finally:
+        GeckoConfig.DISCOVERY_INITIAL_TIMEOUT_IN_SECONDS, GeckoConfig.DISCOVERY_TIMEOUT_IN_SECONDS = saved
+        gc.ConfigChange = saved_cc
+
+
 def threaded_dedup(sx):
     """GeckoLocator._on_discovered: one step from an arbitrary list of already known spas"""
     from geckolib.locator import GeckoLocator
@@ -287,4 +336,5 @@ def units(tier):
     for f in range(4):
         yield Unit(f"discover.slow-handler.filter{f}", discover(2, slow=True), presets={"filter": f}, max_paths=200000)
     yield Unit("burst", burst, validate=False)
+    yield Unit("second-locator", second_locator, validate=False)
     yield Unit("threaded-dedup", threaded_dedup)
